@@ -486,7 +486,7 @@ int janet_verify(JanetFuncDef *def) {
      * prevent running over the end of bytecode. However, valid functions with dead code will
      * be rejected. */
     {
-        uint32_t lastop = def->bytecode[def->bytecode_length - 1] & 0xFF;
+        uint32_t lastop = def->bytecode[def->bytecode_length - 1] & 0x7F;
         switch (lastop) {
             default:
                 return 9;
